@@ -327,15 +327,10 @@ def parseFieldLine (L : List Char) : Except Err SField :=
   let W := rest.takeWhile isSpace
   let X := rest.dropWhile isSpace
   let flagsTxt : Option (List Char × List Char) :=
-    match X with
-    | c :: _ =>
-      if c ≠ '#' then some (X.takeWhile (· ≠ '#'), X.dropWhile (· ≠ '#'))
-      else match W.reverse with
-        | w :: _ :: _ => some ([w], X)
-        | _ => none
-    | [] => match W.reverse with
-        | w :: _ :: _ => some ([w], X)
-        | _ => none
+    if X.head?.any (fun c => c != '#') then some (X.takeWhile (fun c => c != '#'), X.dropWhile (fun c => c != '#'))
+    else match W.reverse with
+      | w :: _ :: _ => some ([w], X)
+      | _ => none
   match flagsTxt with
   | none => .error .attributeError
   | some (ft, R) =>
